@@ -46,7 +46,7 @@ class C15(Prop):
         "replacement of one ASCII letter/digit by a Unicode look-alike or case-fold partner (U+017F, U+212A, U+0130, U+0131, non-ASCII digits), text over a structural alphabet, unbalanced and very deep nesting (to 3000 levels), trailing garbage after a "
         "complete filter; checked: only FilterSyntaxError escapes, offset/length inside the (UTF-8 encoded, stripped) "
         "input, accepted filters have RFC 4512-valid attribute descriptions / matching rules and their own text form "
-        "parses back to the same filter; compared with the extracted model; non-trivial = not a plain sentence"
+        "parses back to the same filter; compared with the extracted model; every from_string is made twice with the first result modified in place in between; non-trivial = not a plain sentence"
     )
     assumptions = [
         "offset/length are UTF-8 octet positions in the stripped input (what the parser indexes); for a string with an unencodable surrogate they are character positions",
